@@ -119,6 +119,7 @@ def emit():
     w('@filter Opm::')
     w('@mode SA')
     w('@timeout 120')
+    w('@instantiate ghost_e')
     w('@typemap const double \\* = c_tabid')
     w('@typemap const char \\*const \\* = c_opaque')
     w('@typemap std::(__cxx11::)?basic_string<char.*> = c_opaque')
@@ -134,25 +135,42 @@ def emit():
         w('@global Opm::' + k)
     w('@prelude')
     w('/* ghost log of the string dimension table: addDimension(name, factor, offset) */')
-    w('static struct { real_t factor[256]; real_t offset[256]; _Bool set[256]; } ghost_dims;')
+    w('static unsigned long ghost_e, ghost_n0; static real_t ghost_v0;\nstatic struct { real_t factor[256]; real_t offset[256]; _Bool set[256]; } ghost_dims;')
     w('#define GHOST_ADD_DIM(self, name, ...) GHOST_ADD_DIM_(name, __VA_ARGS__, 0, 0)   /* the offset parameter defaults to 0.0 (UnitSystem.hpp) */')
     w('#define GHOST_ADD_DIM_(nm, f_, o_, ...) do { ghost_dims.factor[nm] = (f_); ghost_dims.offset[nm] = (o_); ghost_dims.set[nm] = 1; } while (0)')
+    w('/* the table triples that initMETRIC / initFIELD / initLAB / initPVT_M install (their contracts) */')
+    w('#define SYSTEM_TABLES(u) (' + ' || '.join('((u)->measure_table_from_si == TAB_G_to_%s && (u)->measure_table_to_si == TAB_G_from_%s && (u)->measure_table_to_si_offset == TAB_G_from_%s_offset)' % (x, x, x) for x in SYS) + ')')
     w('')
     w('@function unit_square')
     w('qual: Opm::unit::square')
     w('@function unit_cubic')
     w('qual: Opm::unit::cubic')
     # --- member functions
-    w('@function us_to_si')
+    w('@function us_to_si uf_tables')
     w('qual: Opm::UnitSystem::to_si')
     w('sig: (Opm::UnitSystem::measure, double) const')
     w('requires: m >= 0 && m < %d && TAB_VALID(self->measure_table_to_si) && TAB_VALID(self->measure_table_to_si_offset)' % len(MEASURES))
     w('ensures affine: \\result == verif_tab_at(self->measure_table_to_si, m) * val + verif_tab_at(self->measure_table_to_si_offset, m)')
-    w('@function us_from_si')
+    w('@function us_from_si uf_tables')
     w('qual: Opm::UnitSystem::from_si')
     w('sig: (Opm::UnitSystem::measure, double) const')
     w('requires: m >= 0 && m < %d && TAB_VALID(self->measure_table_from_si) && TAB_VALID(self->measure_table_to_si_offset)' % len(MEASURES))
     w('ensures affine: \\result == verif_tab_at(self->measure_table_from_si, m) * (val - verif_tab_at(self->measure_table_to_si_offset, m))')
+    # bulk (vector) overloads: element-wise the same affine maps, for vectors of any length (ghost element)
+    w('@function us_to_si_vec')
+    w('qual: Opm::UnitSystem::to_si')
+    w('sig: (Opm::UnitSystem::measure, std::vector<double')
+    w('requires: m >= 0 && m < %d && SYSTEM_TABLES(self) && data->size <= 1099511627776ul' % len(MEASURES))
+    w('ensures size: data->size == \\old(data->size)')
+    w('ensures element: IMPLIES(ghost_e < data->size, data->data[ghost_e] == verif_tab_at(self->measure_table_to_si, m) * \\old(data->data[ghost_e]) + verif_tab_at(self->measure_table_to_si_offset, m))')
+    w('assigns: *data')
+    w('@function us_from_si_vec')
+    w('qual: Opm::UnitSystem::from_si')
+    w('sig: (Opm::UnitSystem::measure, std::vector<double')
+    w('requires: m >= 0 && m < %d && SYSTEM_TABLES(self) && data->size <= 1099511627776ul' % len(MEASURES))
+    w('ensures size: data->size == \\old(data->size)')
+    w('ensures element: IMPLIES(ghost_e < data->size, data->data[ghost_e] == verif_tab_at(self->measure_table_from_si, m) * (\\old(data->data[ghost_e]) - verif_tab_at(self->measure_table_to_si_offset, m)))')
+    w('assigns: *data')
     for sysn, cname in (('metric', 'initMETRIC'), ('field', 'initFIELD'), ('lab', 'initLAB'), ('pvt_m', 'initPVT_M')):
         w('@function us_%s' % cname)
         w('qual: Opm::UnitSystem::%s' % cname)
